@@ -1131,7 +1131,13 @@ def tp_oracle(case):
         return ("pull_quic_transport_parameters accepted a parameter whose value does not end at its declared length",
                 {"codec": "tparams", "rule": "nesting"})
     b2 = Buffer(capacity=len(data) + 4096)
-    packet.push_quic_transport_parameters(b2, params)
+    try:
+        packet.push_quic_transport_parameters(b2, params)
+    except Exception as e:
+        if errk(e) == E_WRITE and len(data) > 65536:
+            TP_BOUNDARY["decodes_but_reencode_overflows_inner_buffer"] += 1     # tparams_reencode needs |input| <= 65536
+            return None
+        return ("decoded transport parameters do not re-encode: %s" % type(e).__name__, {"codec": "tparams", "rule": "reencode"})
     again = packet.pull_quic_transport_parameters(Buffer(data=b2.data))
     if again != params:
         return ("decoded transport parameters do not re-encode to the same value", {"codec": "tparams", "rule": "reencode"})
@@ -1192,6 +1198,10 @@ def tp_gen(rng, n, thorough):
         if rng.random() < 0.4:
             op = c["op"]
             cases.append({"s": "tparams", "op": ["pushrec"] + op[1:]} if op[0] == "push" else {"s": "tparams", "op": ["pullrec", op[1]]})
+    # tparams_reencode / tparams_reencode_limit: a 65536-byte value re-encodes, a 65537-byte value decodes but does not
+    for n in (65536 - 5, 65536, 65537):
+        cases.append({"s": "tparams", "op": ["pull", H(rfc_varint(0) + rfc_varint(n) + bytes([7]) * n)]})
+        cases.append({"s": "tparams", "op": ["pullrec", H(rfc_varint(0x0C37) + rfc_varint(n) + bytes([9]) * n)]})
     # boundary of the round-trip domain (tparams_roundtrip_*_refuted, tparams_encode_ok_decode_error)
     pa = {"v4": ["0.0.0.0", 443], "v6": None, "cid": "01020304", "tok": "05" * 16}
     for spec in ({"preferred_address": pa}, {"max_idle_timeout": 30000, "disable_active_migration": None},
@@ -1735,6 +1745,8 @@ def _rebuild(c, ops):
 
 def _simplify(op):
     """smaller variants of one op: shorter byte strings, smaller numbers"""
+    if op[0] == "pushrec" and isinstance(op[2], list):
+        return []      # a TLS message given as its token dump: cutting the dump gives garbage counts, not a smaller message
     out = []
     for i, x in enumerate(op):
         if i == 0:
